@@ -4,6 +4,14 @@
 (*  in.kind = "budget"  one line: a Get/Put sequence on a real             *)
 (*      BucketedPool[byte] (in.sizes, in.max, in.ops) with the observed    *)
 (*      steps[k] = [op, sz, ok, cap, used]; judged with BudgetClauses.     *)
+(*  in.kind = "conc"    one line: in.goroutines goroutines doing in.iters   *)
+(*      Get(about in.ask)/Put rounds each on one real BucketedPool[byte]   *)
+(*      whose budget in.max admits only a few of them at once, the process *)
+(*      pinned to one cpu; observed: maxused = largest UsedBytes() seen    *)
+(*      by a continuously sampling monitor and after every operation,      *)
+(*      maxheld = most bytes held at once (counted by the harness, never   *)
+(*      more than really checked out), finalused = UsedBytes() at the end; *)
+(*      judged with ConcBudgetClauses.                                     *)
 (*  in.kind = "shard"   a header line, then one line per operation on the  *)
 (*      ProxyStore's sync.Pool of shard-matcher buffers, reported by the   *)
 (*      hooks in ShardInfo.Matcher (after Get) and ShardMatcher.Close      *)
@@ -27,6 +35,8 @@ Header == /\ IsEvent("case")
           /\ owned' = {}
           /\ IF Trace[l].in.kind = "budget"
                THEN CaseReject(l, Trace[l], BudgetClauses(Trace[l].in.max, Trace[l].steps))
+               ELSE IF Trace[l].in.kind = "conc"
+               THEN CaseReject(l, Trace[l], ConcBudgetClauses(Trace[l].in.max, Trace[l].maxused, Trace[l].maxheld, Trace[l].finalused))
                ELSE TRUE
 GetEv == /\ IsEvent("Get")
          /\ CaseReject(l, Trace[l], GetClauses(owned, <<Trace[l].pool, Trace[l].buf>>))
